@@ -21,4 +21,4 @@ def run(ctx):
         "as C02 plus an implementation-side oracle on every directory at the end of every sequence: cookie-paged enumeration with 8 budget settings "
         "(including 0 and one-entry pages) must equal the one-shot listing and terminate",
         ["enumeration while the directory changes is exercised only between calls of the sequential client"],
-        pending=["enumeration_exact_dynamic (directory changing between calls), stated in Props/C13.lean"])
+        pending=[])
